@@ -1,0 +1,75 @@
+//go:build verif
+
+// Contracts for package cache, read by /verif/govc. This file contains only
+// comments: with the build tag off it does not exist for the compiler, with
+// it on it adds no code.
+package cache
+
+// ---- uuidset.go ---------------------------------------------------------
+
+//@ func newUUIDSet
+//@ modifies nothing
+//@ ensures fresh(result)
+//@ ensures forall u: string :: (u in result) == (exists i: int :: 0 <= i && i < len(uuids) && uuids[i] == u)
+//@ loop 1 invariant s != nil && fresh(s)
+//@ loop 1 invariant forall u: string :: (u in s) == (exists i: int :: 0 <= i && i <= rangeindex && uuids[i] == u)
+
+//@ func (uuidset).add
+//@ requires s != nil
+//@ modifies s[*]
+//@ ensures forall u: string :: (u in s) == (old(u in s) || u == uuid)
+
+//@ func (uuidset).remove
+//@ modifies s[*]
+//@ ensures forall u: string :: (u in s) == (old(u in s) && u != uuid)
+
+//@ func (uuidset).has
+//@ pure
+//@ ensures result == (uuid in s)
+
+//@ func (uuidset).empty
+//@ pure
+//@ ensures result == (len(s) == 0)
+
+//@ func (uuidset).equals
+//@ pure
+//@ ensures result ==> (forall u: string :: (u in s) ==> (u in o))
+//@ ensures result ==> len(s) == len(o)
+//@ ensures !result ==> (len(s) != len(o) || (exists u: string :: (u in s) && !(u in o)))
+//@ loop 1 invariant forall u: string :: visited(u) ==> (u in o)
+
+//@ func (uuidset).getAny
+//@ pure
+//@ ensures len(s) > 0 ==> (result in s)
+//@ ensures len(s) == 0 ==> result == ""
+
+//@ func (uuidset).list
+//@ modifies nothing
+//@ ensures fresh(result)
+//@ ensures forall i: int :: 0 <= i && i < len(result) ==> (result[i] in s)
+//@ loop 1 invariant 0 <= len(uuids) && fresh(uuids)
+//@ loop 1 invariant forall i: int :: 0 <= i && i < len(uuids) ==> (uuids[i] in s)
+
+//@ func addUUIDSet
+//@ modifies s1[*]
+//@ ensures forall u: string :: (u in result) == (old(u in s1) || (u in s2))
+//@ ensures len(s2) == 0 ==> result == s1
+//@ ensures len(s2) > 0 && s1 != nil ==> result == s1
+//@ ensures len(s2) > 0 && s1 == nil ==> fresh(result)
+//@ loop 1 invariant s1 != nil
+//@ loop 1 invariant forall u: string :: (u in s1) == (old(u in s1) || (visited(u) && (u in s2)))
+
+//@ func substractUUIDSet
+//@ modifies s1[*]
+//@ ensures result == s1
+//@ ensures forall u: string :: (u in result) == (old(u in s1) && !old(u in s2))
+//@ loop 1 invariant forall u: string :: (u in s1) == (old(u in s1) && !(visited(u) && old(u in s2)))
+//@ loop 1 invariant forall u: string :: visited(u) ==> old(u in s2)
+
+//@ func intersectUUIDSets
+//@ modifies nothing
+//@ ensures (len(s1) == 0 || len(s2) == 0) ==> result == nil
+//@ ensures result != nil ==> fresh(result)
+//@ ensures forall u: string :: (u in result) == ((u in s1) && (u in s2))
+//@ loop 1 invariant f != nil && fresh(f)
+//@ loop 1 invariant forall u: string :: (u in f) == (visited(u) && (u in s1) && (u in s2))
